@@ -513,12 +513,20 @@ func init() {
 		Assume: []string{"inputs are enumerated from boundary-heavy menus (token level), not arbitrary byte strings: 22 args annotations x 8 owner shapes x 5 pod names x 4 policies x 3 pools x 2 nodes; 14 queries; 31 HTTP bodies; 20 configuration texts; ~70 raw CNI request bodies and 160 pod annotation combinations; 1152 valid NetworkPolicies",
 			"watchdog: a call that has not returned after 10 s counts as a hang (the calls take microseconds to milliseconds); ranges covering more than 2^16 addresses are not in the alphabet (they are slow, not unbounded)",
 			"a pod that does not exist makes the daemon's ADD wait 5 s by design; that case is exercised once"},
-		Rule: "every input of every surface is fed to the real entry point (Filter, Preempt, Bind, UpdatePod, DeletePod/unbind; GET/POST/DELETE of the IPAM API; configuration reload; the daemon's /cni handler; PolicyManager Run and event handlers) under a watchdog; every operation of every history of <= 3 (4) lifecycle operations per workload class is run again with its k-th API call failing, then the same instance must answer a Filter per pod, the pending events, a resync and a pool request; " +
+		Rule: "every input of every surface is fed to the real entry point (Filter, Preempt, Bind, UpdatePod, DeletePod/unbind; GET/POST/DELETE of the IPAM API; configuration reload; the daemon's /cni handler; PolicyManager Run and event handlers) under a watchdog; every operation of every history of <= 3 (4) lifecycle operations per workload class is run again with its k-th API call failing, then the same instance must answer a Filter per pod, the pending events, a resync and a pool request; every schedule (preemption-bounded, writer-preferring RWMutex model) of every pair of galaxy-ipam entry points must end without deadlock or panic; " +
 			"after every input a probe (a normal Filter + ListIPs + resync, resp. a normal ADD+DEL) must still answer on the same instance; a panic, a hang of the call or of the probe is a violation; distinct/non-trivial = distinct inputs",
 		Jobs: func(tier string) []Job {
 			jobs := []Job{c18HTTPJob(), c18DaemonJob(), c18PolicyJob()}
 			for s := 0; s < 12; s++ {
 				jobs = append(jobs, c18PodsJob(s, 12))
+			}
+			// every schedule of every pair of galaxy-ipam entry points (the scenarios of C19, monitor off): no deadlock, no panic
+			for _, sc := range c19IPAMScenarios(tier) {
+				if len(strings.Split(sc.Name, "||")) > 2 {
+					continue
+				}
+				sc.Weight = 1
+				jobs = append(jobs, ExploreJob("C18", sc, oracleNone))
 			}
 			return append(jobs, c18FaultProbeJobs(tier)...)
 		}})
